@@ -66,6 +66,7 @@ type Result struct {
 	SwitchPairs map[[2]int32]int
 	ChanOps     int64
 	Rendezvous  int64
+	AbortSite   int // site at which the run was aborted (budget), 0 if unknown
 }
 
 type abortPanic struct{}
@@ -767,6 +768,11 @@ func (s *Sim) schedule(from *task, forced bool) {
 	}
 	if s.steps >= s.budget {
 		s.res.Budget = true
+		if from != nil {
+			s.res.AbortSite = from.lastSite
+		} else if s.current != nil {
+			s.res.AbortSite = s.current.lastSite
+		}
 		s.res.Blocked = s.leakInfos()
 		s.beginAbort(from)
 		return
